@@ -483,9 +483,10 @@ struct Extractor {
       O << ",\"k\":\"defarg\"";
       (void)E;
     } else if (auto *E = dyn_cast<UnaryExprOrTypeTraitExpr>(St)) {
-      O << ",\"k\":\"sizeof\"";
+      O << ",\"k\":\"sizeof\",\"tk\":" << (int)E->getKind();
+      if (!E->getTypeOfArgument().isNull() && !E->getTypeOfArgument()->isDependentType()) O << ",\"ty\":" << ty(E->getTypeOfArgument());
       Expr::EvalResult R;
-      if (E->EvaluateAsInt(R, C)) O << ",\"v\":" << R.Val.getInt().getExtValue();
+      if (!E->isValueDependent() && E->EvaluateAsInt(R, C)) O << ",\"v\":" << R.Val.getInt().getExtValue();
     } else {
       std::vector<unsigned> a;
       for (auto *c : St->children()) if (c) a.push_back(K(c));
@@ -814,6 +815,33 @@ struct Extractor {
           jstr(O, V->getName()); O << ':' << Rr.Val.getInt().getExtValue();
         }
       }
+    }
+    // static data members initialised by a braced list: element values (constants, null, sizeof(type))
+    O << "},\"sinit\":{";
+    first = true;
+    seen.clear();
+    for (auto *D : R->decls()) {
+      auto *V = dyn_cast<VarDecl>(D);
+      if (!V || !V->isStaticDataMember() || V->isTemplated()) continue;
+      const Expr *I = V->getAnyInitializer();
+      if (!I) continue;
+      I = I->IgnoreImplicit();
+      auto *IL = dyn_cast<InitListExpr>(I);
+      if (!IL) continue;
+      if (!seen.insert(V->getNameAsString()).second) continue;
+      if (!first) O << ','; first = false;
+      jstr(O, V->getName()); O << ":[";
+      for (unsigned k = 0; k < IL->getNumInits(); k++) {
+        if (k) O << ',';
+        const Expr *X = IL->getInit(k)->IgnoreParenImpCasts();
+        Expr::EvalResult Rr;
+        if (auto *SZ = dyn_cast<UnaryExprOrTypeTraitExpr>(X)) {
+          O << "{\"sizeof\":" << (SZ->getTypeOfArgument().isNull() ? 0 : ty(SZ->getTypeOfArgument())) << ",\"tk\":" << (int)SZ->getKind() << "}";
+        } else if (isa<CXXNullPtrLiteralExpr>(X) || isa<GNUNullExpr>(X)) O << "\"null\"";
+        else if (!X->isValueDependent() && X->EvaluateAsInt(Rr, C)) O << Rr.Val.getInt().getExtValue();
+        else O << "\"?\"";
+      }
+      O << ']';
     }
     O << "},\"methods\":[";
     first = true;
